@@ -73,8 +73,8 @@ def c01(tier):
              + mk("access", 60 if q else 2500, s + 10, "default", n_ops=60, precondition=False)
              # long histories: thousands of operations on one daemon (tables that have grown and emptied again, ids and counters far
              # from their start, memory that has been through many hands)
-             + mk("bus", 12 if q else 200, s + 11, "default", n_ops=2500 if q else 12000, opts=dict(weights=w))
-             + mk("bus", 8 if q else 100, s + 12, "tiny", n_ops=2500 if q else 12000, opts=dict(weights=w))
+             + mk("bus", 12 if q else 80, s + 11, "default", n_ops=2500 if q else 12000, opts=dict(weights=w))
+             + mk("bus", 8 if q else 40, s + 12, "tiny", n_ops=2500 if q else 12000, opts=dict(weights=w))
              # dense runs of occupied slots in the path index (elements far behind their home bucket) with a subscriber watching
              + mk("cluster", 24 if q else 800, s + 13, "default", cluster=(40, 2, "low")) + mk("cluster", 16 if q else 500, s + 14, "default", cluster=(48, 3, "end"))
              + mk("cluster", 8 if q else 300, s + 15, "roomy", cluster=(40, 2, "wrap")))
@@ -124,8 +124,8 @@ def c03(tier):
              + mk("bus", 80 if q else 3000, s + 4, "odd", n_ops=120, opts=dict(weights=w, hostile_owner=0.15))
              # long histories: many hundreds of routed requests through one daemon (request counter far from its start, routing
              # tables filled and emptied many times)
-             + mk("bus", 12 if q else 200, s + 5, "default", n_ops=2500 if q else 12000, opts=dict(weights=w, hostile_owner=0.1))
-             + mk("bus", 6 if q else 100, s + 6, "tiny", n_ops=2500 if q else 12000, opts=dict(weights=w, hostile_owner=0.1))
+             + mk("bus", 12 if q else 80, s + 5, "default", n_ops=2500 if q else 12000, opts=dict(weights=w, hostile_owner=0.1))
+             + mk("bus", 6 if q else 40, s + 6, "tiny", n_ops=2500 if q else 12000, opts=dict(weights=w, hostile_owner=0.1))
              # "the owner's result or error payload unchanged if the owner answers before the deadline" - also when disarming the timer fails
              + mk("deadline-cancelfault", 60 if q else 2000, s + 7, "default")
              # "a request id unique among in-flight routed requests", "does not depend on anything a third peer does": successors of callers that left
@@ -157,7 +157,7 @@ def c04(tier):
     # requests without a usable id (absent, null, bool, object, array) are not answered: their effect is read back
     cases += mk("idless", 60 if q else 3000, s + 6, "default", n_ops=30) + mk("idless", 20 if q else 1000, s + 7, "tiny", n_ops=30)
     # long histories: the same few paths added and removed thousands of times by changing owners
-    cases += mk("bus", 10 if q else 200, s + 8, "default", n_ops=2500 if q else 12000, opts=dict(weights=w, rich=True)) + mk("bus", 6 if q else 100, s + 9, "tiny", n_ops=2500 if q else 12000, opts=dict(weights=w))
+    cases += mk("bus", 10 if q else 80, s + 8, "default", n_ops=2500 if q else 12000, opts=dict(weights=w, rich=True)) + mk("bus", 6 if q else 40, s + 9, "tiny", n_ops=2500 if q else 12000, opts=dict(weights=w))
     res = nres + run_cases(cases + ncases)
     return report("C04", "exploration", res,
                   "random sequences (90..220 steps, and a few of 2 500 - thorough: 12 000 - steps on one daemon) of add/remove/change/set/call/get by several peers over path strings incl. empty, long, non-ASCII, hash-colliding ones and dense runs of neighbouring home buckets (fill until refused / thin out / refill, also across the end of the table) and "
